@@ -19,7 +19,8 @@
    program: (1) two conflicting accesses to a guarded location class are never enabled
    together, (2) no cycle of goroutines waiting for each other's mutexes (Go's writer
    preference included), and a goroutine that waits for handlers or joined goroutines holds no
-   mutex.  Not covered (conf/C12.json level_note): completeness of the translator (audited,
+   mutex, nor does a goroutine that is about to wait on the outside world (socket I/O, dial,
+   channel operation without default or timer, sleep).  Not covered (conf/C12.json level_note): completeness of the translator (audited,
    trusted), the excluded facts, blocking on channels / timers, memory-model details below
    the lock abstraction. *)
 From Coq Require Import List Relations.
@@ -37,6 +38,7 @@ Theorem C12_lockset_sound : forall p,
       | ERd l false => exists md, In (guard_of p l, md) (after nil a)
       | ERel m md => In (m, md) (after nil a)
       | EYield false => after nil a = nil
+      | EBlock false => after nil a = nil
       | _ => True
       end.
 Proof. exact lockset_sound. Qed.
@@ -51,14 +53,17 @@ Theorem C12_race_free : forall p,
 Proof. exact C12_race_free_gen. Qed.
 Print Assumptions C12_race_free.
 
-(* no lock-cycle deadlock: no goroutine reaches itself along wait-for edges, and a goroutine
-   at a dynamic call / WaitGroup.Wait holds nothing *)
+(* no lock-cycle deadlock: no goroutine reaches itself along wait-for edges; a goroutine at a
+   dynamic call / WaitGroup.Wait holds nothing; and a goroutine about to wait on the outside
+   world (socket or bufio I/O, dial, channel operation without default or timer, sleep) holds
+   nothing, so no other goroutine can be queued on a mutex behind an unbounded wait *)
 Theorem C12_lock_order : forall p,
   check_order p = true ->
   forall traces, Forall (runs p) traces ->
   forall s, msteps (init_state traces) s ->
     (forall i, ~ clos_trans nat (waits_for s) i i) /\
-    (forall i t r, nth_error s i = Some t -> rest t = EYield false :: r -> hs t = nil).
+    (forall i t r, nth_error s i = Some t -> rest t = EYield false :: r -> hs t = nil) /\
+    (forall i t r, nth_error s i = Some t -> rest t = EBlock false :: r -> hs t = nil).
 Proof. exact C12_lock_order_gen. Qed.
 Print Assumptions C12_lock_order.
 
@@ -89,6 +94,7 @@ Theorem C12_girc_no_lock_cycle_partial :
   forall traces, Forall (runs facts) traces ->
   forall s, msteps (init_state traces) s ->
     (forall i, ~ clos_trans nat (waits_for s) i i) /\
-    (forall i t r, nth_error s i = Some t -> rest t = EYield false :: r -> hs t = nil).
+    (forall i t r, nth_error s i = Some t -> rest t = EYield false :: r -> hs t = nil) /\
+    (forall i t r, nth_error s i = Some t -> rest t = EBlock false :: r -> hs t = nil).
 Proof. exact (C12_lock_order_gen facts facts_order). Qed.
 Print Assumptions C12_girc_no_lock_cycle_partial.
